@@ -1,2 +1,2 @@
 SPECIFICATION Spec
-INVARIANTS AtMostOneNormal LockDiscipline Serializable EmitCase
+INVARIANTS AtMostOneNormal ActiveExists LockDiscipline Serializable EmitCase
